@@ -35,53 +35,80 @@ def run(ctx):
                'each connection answers its USE at most once')
     maxk = 3 if ctx.tier == 'quick' else 4
     ctx.exhaustive = True
-    ctx.rule = ('all outcome vectors over {ok, invalid, connerr, noconn, shut, same} for 0..%d pools x all completion orders of the pending pools '
-                '(exhaustive), plus random vectors of 5-7 pools with random orders and partial completions; non-trivial = at least two pools '
-                'and at least one pending completion' % maxk)
-    todo = []
+    ctx.rule = ('all outcome vectors over {ok, invalid, connerr, noconn, shut, same, emptyv2 (HostConnectionPool without connection)} for '
+                '0..%d pools x all completion orders of the pending pools, each followed by the reconnection of every pool that lost its '
+                'connection (exhaustive); two-switch histories (same keyspace again after the first switch, second-round outcomes over '
+                '{ok, invalid, connerr}) exhaustive for <= 2 pools and sampled above; random vectors of 5-7 pools with partial completions; '
+                'non-trivial = at least two pools and at least one pending completion' % maxk)
+    todo = []     # (outcomes, order, reconnect, round2 outcomes or None)
     for k in range(0, maxk + 1):
-        for outs in itertools.product(K.OUTCOMES, repeat=k):
+        vecs = list(itertools.product(K.OUTCOMES, repeat=k))
+        if ctx.tier == 'quick' and k >= 3:
+            ctx.rng.shuffle(vecs)
+            vecs = vecs[:260]
+            ctx.exhaustive = False
+        for outs in vecs:
             for order in itertools.permutations(K.pending_of(outs)):
-                todo.append((list(outs), list(order)))
+                todo.append((list(outs), list(order), True, None))
+            if 'lost' in outs:
+                todo.append((list(outs), 'race', False, None))
+    R2 = ['ok', 'invalid', 'connerr']
+    first = [o for o in K.OUTCOMES if o not in ('emptyv2', 'lost')]
+    for k in (1, 2):
+        for outs in itertools.product(first, repeat=k):
+            for order in itertools.permutations(K.pending_of(outs)):
+                for r2 in itertools.product(R2, repeat=k):
+                    todo.append((list(outs), list(order), False, list(r2)))
+    for _ in range(150 if ctx.tier == 'quick' else 3000):
+        outs = [ctx.rng.choice(first) for _ in range(ctx.rng.randint(3, 4))]
+        order = K.pending_of(outs)
+        ctx.rng.shuffle(order)
+        todo.append((outs, order, ctx.rng.random() < 0.5, [ctx.rng.choice(R2) for _ in outs]))
     for _ in range(150 if ctx.tier == 'quick' else 3000):
         outs = [ctx.rng.choice(K.OUTCOMES) for _ in range(ctx.rng.randint(5, 7))]
         order = K.pending_of(outs)
         ctx.rng.shuffle(order)
         if ctx.rng.random() < 0.3:
             order = order[:ctx.rng.randint(0, len(order))]
-        todo.append((outs, order))
+        todo.append((outs, order, False, None))
     cdir = os.path.join(core.VERIF, 'corpus', 'C20')
     if os.path.isdir(cdir):
         for fn in sorted(os.listdir(cdir)):
             c = json.load(open(os.path.join(cdir, fn)))
-            todo.insert(0, (c['outcomes'], c['order']))
+            if 'outcomes' in c:
+                todo.insert(0, (c['outcomes'], c['order'], c.get('reconnect', False), c.get('round2')))
     cases, meta = [], []
-    for outs, order in todo:
+    for outs, order, rec, r2 in todo:
+        case = {'outcomes': outs, 'order': order, 'reconnect': rec, 'round2': r2}
+        if order == 'race':
+            case['switch_lands_during_reconnect'] = True
         try:
-            r = K.run_case(outs, order)
+            if order == 'race':
+                r = K.run_race(outs)
+                order = [i for i in range(len(outs)) if outs[i] in K.PENDING]
+            else:
+                r = K.run_case(outs, order, reconnect=rec, round2=r2)
         except Exception as e:
-            ctx.violation('keyspace-switch.exception', 'the driver raised %r for outcomes %s order %s' % (e, outs, order),
-                          case={'outcomes': outs, 'order': order}, theorem='C20_always_completes', kind='history')
+            ctx.violation('keyspace-switch.exception', 'the driver raised %r for %s' % (e, case), case=case, theorem='C20_always_completes', kind='history')
             continue
-        ctx.case([outs, order], nontrivial=len(outs) >= 2 and len(order) >= 1,
-                 sample={'outcomes': outs, 'completion_order': order, 'final_callback_args': r.calls})
+        ctx.case([outs, order, rec, r2], nontrivial=len(outs) >= 2 and len(order) >= 1,
+                 sample=dict(case, final_callback_args=r.calls))
         ctx.count('pools', len(outs))
+        ctx.count('rounds', 2 if r2 else 1)
         for o in outs:
             ctx.count('outcome', o)
-        for key, what, thm in K.oracle(r, order):
-            ctx.violation(key, what, case={'outcomes': outs, 'order': order}, expected='C20 statement', actual={'callback_args': r.calls}, theorem=thm, kind='history')
-        o, p = K.coq_case(outs, order)
-        cases.append('tr_eqb (ktrace (kinit %s) (KStart :: map KComplete %s)) %s' % (o, p, H.trace_coq(r.obs)))
-        meta.append((outs, order, r.obs))
+        for key, what, thm in K.oracle(r, order, complete1=(sorted(order) == K.pending_of(outs))):
+            ctx.violation(key, what + ' (%s)' % json.dumps(case), case=case, expected='C20 statement', actual={'callback_args': r.calls}, theorem=thm, kind='history')
+        cases.append('tr_eqb (%s) %s' % (K.coq_run(r, outs, r2), H.trace_coq(r.obs)))
+        meta.append((case, r.obs))
     try:
-        bad = ctx.coq_filter(['Pool', 'Keyspace'], '(fun b : bool => b)', cases, shard=120)
+        bad = ctx.coq_filter(['Pool', 'Keyspace'], '(fun b : bool => b)', cases, shard=150)
     except RuntimeError as e:
         ctx.proof_broken.append(('correspondence:Keyspace', str(e)[-600:]))
         bad = []
     for i in bad[:5]:
-        outs, order, obs = meta[i]
-        ctx.disagreement('model-vs-impl.keyspace-switch', 'Model/Keyspace.v and the real code differ for outcomes %s completion order %s' % (outs, order),
-                         case={'outcomes': outs, 'order': order}, actual=obs)
+        case, obs = meta[i]
+        ctx.disagreement('model-vs-impl.keyspace-switch', 'Model/Keyspace.v and the real code differ for %s' % json.dumps(case), case=case, actual=obs)
     run_create(ctx, K)
 
 
@@ -95,14 +122,19 @@ def run_create(ctx, K):
             for s1 in two:
                 for r1 in short:
                     for r2 in (short if r1 else [[]]):
-                        todo.append((ks0, len(todo) % 3, s0, s1, [r for r in (r1, r2) if r]))
+                        rs = [r for r in (r1, r2) if r]
+                        todo.append((ks0, len(todo) % 3, s0, s1, [[False, r] for r in rs]))
+                        if s1:
+                            for f in range(len(rs) + 1):       # the f-th catch-up USE is refused by the new node
+                                todo.append((ks0, len(todo) % 3, s0, s1, [[False, r] for r in rs[:f]] + [[True, (rs[f] if f < len(rs) else [])]]))
     if ctx.tier == 'quick':
         ctx.rng.shuffle(todo)
-        todo = todo[:500]
+        todo = todo[:700]
     for _ in range(60 if ctx.tier == 'quick' else 600):
         rnd = lambda n: [ctx.rng.randint(1, 3) for _ in range(ctx.rng.randint(0, n))]
-        todo.append((ctx.rng.randint(0, 3), ctx.rng.randint(0, 2), rnd(1), rnd(3), [rnd(2) for _ in range(ctx.rng.randint(0, 4))]))
-    todo.insert(0, (1, 1, [], [2], [[3]]))
+        todo.append((ctx.rng.randint(0, 3), ctx.rng.randint(0, 2), rnd(1), rnd(3), [[ctx.rng.random() < 0.2, rnd(2)] for _ in range(ctx.rng.randint(0, 4))]))
+    todo.insert(0, (1, 1, [], [2], [[False, [3]]]))
+    todo.insert(0, (1, 1, [], [2], [[True, []]]))
     cases, meta = [], []
     for ks0, n0, s0, s1, rounds in todo:
         case = {'create': True, 'ks0': ks0, 'registered_pools': n0, 'switches_before_read': s0, 'switches_after_read': s1, 'switches_per_catchup_round': rounds}
@@ -143,8 +175,12 @@ def replay(ctx, rp):
     if 'outcomes' not in case:
         print('nothing to replay: %s' % rp.get('theorem'))
         return 1
-    r = K.run_case(case['outcomes'], case['order'])
-    found = K.oracle(r, case['order'])
+    if case['order'] == 'race':
+        r = K.run_race(case['outcomes'])
+        found = K.oracle(r, [])
+    else:
+        r = K.run_case(case['outcomes'], case['order'], reconnect=case.get('reconnect', False), round2=case.get('round2'))
+        found = K.oracle(r, case['order'], complete1=(sorted(case['order']) == K.pending_of(case['outcomes'])))
     print('outcomes %s order %s -> final callback args %s' % (case['outcomes'], case['order'], r.calls))
     for f in found:
         print('  %s: %s' % (f[0], f[1]))
